@@ -175,7 +175,7 @@ def check_site(r, rule, nn, site, mode, spaceA, spaceB, self_policy, equal_lengt
             rep.require(False, f"{q}:{site.line}: takewhile stage {why_tw}; whether it drops a neighbour cannot be decided [{rule}-FGA]")
         else:
             rep.ob(rule + "-FGA", con, ok_tw, "a scan that stops at the first rejected candidate drops nothing that a filter would keep", where,
-                   expected="takewhile over candidates sorted (ascending) by the single quantity its predicate bounds from above", found=why_tw, key=f"{K} takewhile")
+                   expected="takewhile over candidates sorted (ascending) by the single quantity its predicate bounds from above", found=why_tw, key=f"{K} takewhile", lint=ok_tw is False)
     # ---- classify guards
     thr, selfs, unknown, lenf = [], [], [], []
     for atom, pol in site.guards:
@@ -188,7 +188,7 @@ def check_site(r, rule, nn, site, mode, spaceA, spaceB, self_policy, equal_lengt
             lenf.append(c)
         elif c[0] == "valuememo":
             rep.ob(rule + "-FGA", con, False, "pairs are examined per pair of positions (equal sequences at different positions are distinct pairs)", where,
-                   expected="a memo keyed by positions, or none", found=f"already-seen test keyed by sequence values: {c[1]}", key=f"{K} value memo")
+                   expected="a memo keyed by positions, or none", found=f"already-seen test keyed by sequence values: {c[1]}", key=f"{K} value memo", lint=True)
         elif c[0] == "unknown":
             unknown.append((atom, pol, c[1]))
     for kind, T in dinfo["implied"]:
@@ -606,7 +606,7 @@ def check_container_casts(r, rule, nn):
                 fixed = (head(d) == "attr" and d[2] == "dtype") or (is_const(d) and isinstance(d[2], str) and d[2].lstrip("<>=|")[:1] in ("U", "S", "a") and d[2].lstrip("<>=|")[1:].isdigit())
                 if fixed:
                     r.rep.ob(rule, q, False, "sequence containers keep their sequences whole (no conversion to a fixed-width string element type)", wh(r, q, s.func.node),
-                             expected="ensure_numpy(container) / np.asarray(container) without a fixed-width dtype", found=show(x, 100), key=f"fixed-width cast {show(d, 40)}")
+                             expected="ensure_numpy(container) / np.asarray(container) without a fixed-width dtype", found=show(x, 100), key=f"fixed-width cast {show(d, 40)}", lint=True)
 
 
 def run_fga(r, prop, cds, labels=None, floor=None):
@@ -1471,7 +1471,7 @@ def check_buckets(r, rule):
     if unsorted_gb:
         # itertools.groupby merges adjacent runs only: on input that is not sorted by the key, a later run overwrites / splits a class
         r.rep.ob(rule + "-BKT", bq, False, "every element lands in exactly one length class, whatever the input order", wh(r, bq, unsorted_gb[0].node),
-                 expected="grouping that does not depend on the input being sorted by length", found="itertools.groupby over an iterable that is not sorted(...) by the grouping key", key="bucket groupby unsorted")
+                 expected="grouping that does not depend on the input being sorted by length", found="itertools.groupby over an iterable that is not sorted(...) by the grouping key", key="bucket groupby unsorted", lint=True)
     elif mi is None:
         r.rep.require(False, f"{bq}: the way the length buckets are filled is outside the idiom list; cannot decide [{rule}-BKT]")
     else:
@@ -1628,7 +1628,7 @@ def _coo_ok(r, rule, nn, s, call, trip, seqs, seqs2, where):
         if cast is not None:
             # recognisably wrong whatever the surrounding shape: the distance component is forced into an integer type (custom distances are real numbers)
             r.rep.ob(rule, q, False, "the matrix holds the reported distances as they are (no narrowing dtype or other conversion)", where, expected="distances stored unconverted",
-                     found="integer conversion " + show(cast, 60), key="coo data integer cast")
+                     found="integer conversion " + show(cast, 60), key="coo data integer cast", lint=True)
             return False, ""
         if None in ks:
             r.rep.require(False, f"{q}: the data / row / col arguments of coo_matrix are not per-triplet component lists of the idiom list ({show(data, 40)}, ...); cannot decide [{rule}]")
